@@ -1,6 +1,8 @@
 package cache
 
 import (
+	"math"
+
 	"github.com/pinealctx/neptune/remap"
 )
 
@@ -27,7 +29,10 @@ func newWideLRUCache(capacity int64, useXHash bool, opts ...remap.Option) LRUFac
 	w.rehash = remap.NewReMap(opts...)
 	var numbs = w.rehash.Numbs()
 	w.ls = make([]*LRUCache, numbs)
-	var pSize = capacity/int64(numbs) + 1
+	var pSize = capacity / int64(numbs)
+	if pSize < math.MaxInt64 {
+		pSize++
+	}
 	for i := uint64(0); i < numbs; i++ {
 		w.ls[i] = NewLRUCache(pSize)
 	}
